@@ -51,4 +51,15 @@ PROPS = {
             "strings are byte strings (ASCII)",
         ],
     },
+    "C17": {
+        "coq_targets": ["theories/RT/StringsProofs.vo"],
+        "harness": ["c17"],
+        "disagreement_is_violation": True,
+        "axioms": [],
+        "trusted_base": COMMON_TB + [
+            "modelled, not verified: rusty_basic/src/interpreter/built_ins/{left,right,mid_fn,instr,len,ucase,lcase,ltrim,rtrim,space,string_fn,str_fn,val}.rs and to_non_negative_int/to_positive_int of variant_casts.rs, on byte strings; VAL is modelled on its integer states only (strings with a fraction part are outside the model), f64 accumulation of digits is taken as exact below 2^53",
+            "results are observed through PRINT in whole programs (parser, linter, generator, VM and PRINT are on the path of every observation)",
+        ],
+        "assumptions": ["strings are ASCII byte strings; CHR$/non-ASCII strings are outside this property's model"],
+    },
 }
